@@ -2,7 +2,7 @@
 import time
 from vlib import build, core
 
-HARNESSES = {'h_c01/asan': ('h_c01', 'asan'), 'h_c01/plain': ('h_c01', 'plain'), 'h_c01/val': ('h_c01', 'val')}
+HARNESSES = {'h_c01/asan': ('h_c01', 'asan'), 'h_c01/plain': ('h_c01', 'plain'), 'h_c01/val': ('h_c01', 'val'), 'h_c01/msan': ('h_c01', 'msan')}
 
 
 def run(prop, tier, seed, t0):
@@ -16,8 +16,9 @@ def run(prop, tier, seed, t0):
     # plain (-O2, asm paths) explores a disjoint case range
     R.run_sharded(res, exes[1], [], n_plain, label='h_c01/plain', variant='plain', first=n_asan)
     nvg = core.valgrind_stage(R, res, HARNESSES['h_c01/val'], [], 4800 if thorough else 320, n_asan + n_plain)
+    nms = core.msan_stage(R, res, HARNESSES['h_c01/msan'], [], 40000 if thorough else 1600, n_asan + n_plain + (4800 if thorough else 320))
     cov = {
-        'evaluations': res.stat('cases'), 'cases_under_valgrind_memcheck': nvg,
+        'evaluations': res.stat('cases'), 'cases_under_valgrind_memcheck': nvg, 'cases_under_memory_sanitizer': nms,
         'distinct_nontrivial': res.ncells('nontrivial'),
         'rule': 'case = (seed, index) -> data family x size (0..16 dense, 2^k+-2, k*128KiB+-3, 92KiB multiples, random) x entry point x '
                 'stratified parameter vector; non-trivial & distinct = distinct (entry point, APPLIED parameter cell from ZSTD_trace '
